@@ -61,7 +61,8 @@ const IDENTS: [&str; 22] = [
 ];
 const INTS: [&str; 6] = ["0", "42", "007", "1152921504606846975", "9", "10"];
 const FLOATS: [&str; 5] = ["1.5", "0.25", "10.", "3.1415", "0.0"];
-const STR_ALPHABET: [char; 8] = ['a', '"', '\\', '\n', '\t', '{', 'é', '💖'];
+// the letters n and t matter: a backslash in front of them is an escape, an escaped backslash in front of them is not
+const STR_ALPHABET: [char; 8] = ['n', 't', '"', '\\', '\n', '\t', 'é', '💖'];
 
 fn encode_string(content: &str, variant: &mut u64) -> String {
     // newline / tab: raw or escaped, chosen by the bits of `variant`
@@ -547,7 +548,7 @@ impl Check for C08 {
             inconclusive.push("too few damaged texts parsed for the conservation check to mean anything".to_string());
         }
         Summary {
-            rule: "(1) random token sequences over the complete vocabulary, each gap rendered with no separator (where a maximal-munch model allows), one of the 11 whitespace code points or a comment; the lexer's (kind, text) stream must equal the sequence written. (2) conservation: every damaged / random text that parses must contain no content token that is missing from the tree. (3) every string content of length <= 4 over {a \" \\ newline tab { é 💖} in every encoding, as declaration and next to identifiers / other strings. distinct = distinct token sequences / texts / contents".to_string(),
+            rule: "(1) random token sequences over the complete vocabulary, each gap rendered with no separator (where a maximal-munch model allows), one of the 11 whitespace code points or a comment; the lexer's (kind, text) stream must equal the sequence written. (2) conservation: every damaged / random text that parses must contain no content token that is missing from the tree. (3) every string content of length <= 4 over {n t \" \\ newline tab é 💖} in every encoding, as declaration and next to identifiers / other strings. distinct = distinct token sequences / texts / contents".to_string(),
             exhaustive: Some(true),
             extra: json!({
                 "exhaustive_parts": ["all 4 681 string contents of length <= 4 over an 8-character alphabet, in every raw/escaped encoding of newline and tab, in 4 embeddings"],
